@@ -12,14 +12,32 @@ pub mod libc_af { pub const AF_UNIX: i32 = 1; }
 
 pub struct L {
     pub open: Set<c_int>,      // open descriptors
-    pub owned: Set<c_int>,     // ... that an owning value (OsIpcReceiver, OsIpcOneShotServer) will close when dropped
+    pub owned: Set<c_int>,     // ... that an owning value (OsIpcReceiver, OsIpcOneShotServer, OsIpcSender) will close when dropped
+    // rendezvous facts (property C08)
+    pub bound: Map<c_int, int>,        // socket -> identity of the filesystem path it is bound to
+    pub listening: Set<c_int>,         // sockets with a non-empty listen queue
+    pub conn_of: Map<c_int, c_int>,    // accepted connection -> the listening socket it was taken from
+    pub lingering: Set<c_int>,         // connections with SO_LINGER set
+    pub connected: Map<c_int, int>,    // client socket -> identity of the path it connected to
+    pub reads: Seq<c_int>,             // blocking whole-message receives, in order: descriptor read from
+    pub got: Option<(c_int, Seq<u8>, Seq<OsOpaqueIpcChannel>, Seq<OsIpcSharedMemory>)>,   // what the latest successful one returned
 }
+pub open spec fn same_rendezvous(l0: L, l1: L) -> bool {
+    l1.bound == l0.bound && l1.listening == l0.listening && l1.conn_of == l0.conn_of && l1.lingering == l0.lingering
+    && l1.connected == l0.connected && l1.reads == l0.reads && l1.got == l0.got
+}
+// path identities: what the string / C string / sockaddr_un denote
+pub uninterp spec fn str_path(s: &str) -> int;
+pub uninterp spec fn string_path(s: String) -> int;
+pub uninterp spec fn ptr_path(p: usize) -> int;
+pub uninterp spec fn dir_path(dir: int) -> int;       // path of temp dir `dir`
+pub uninterp spec fn parent(path: int) -> int;        // directory a path lives in
 pub open spec fn no_new_unowned(l0: L, l1: L) -> bool {
     forall|fd: c_int| #[trigger] l1.open.contains(fd) && !l0.open.contains(fd) ==> l1.owned.contains(fd)
 }
 
 #[allow(non_camel_case_types)] pub struct sockaddr { pub _p: () }
-#[allow(non_camel_case_types)] pub struct sockaddr_un { pub _p: () }
+#[allow(non_camel_case_types)] pub struct sockaddr_un { pub ghost p: int }   // the path in sun_path
 pub struct OsOpaqueIpcChannel { pub fd: c_int }
 pub struct OsIpcSharedMemory { pub _p: () }
 pub struct OsIpcReceiver { pub fd: std::cell::Cell<c_int> }
@@ -36,69 +54,121 @@ impl OsIpcReceiver {
     // OsIpcReceiver { fd: Cell::new(fd) }: from here on the receiver's Drop closes the descriptor
     #[verifier::external_body]
     pub fn from_fd(fd: c_int, Tracked(l): Tracked<&mut L>) -> (r: OsIpcReceiver)
-        ensures cell_val(&r.fd) == fd, final(l).open == old(l).open, final(l).owned == old(l).owned.insert(fd)
+        ensures cell_val(&r.fd) == fd, final(l).open == old(l).open, final(l).owned == old(l).owned.insert(fd), same_rendezvous(*old(l), *final(l))
     { unimplemented!() }
-    // blocking recv on the accepted connection (unit U3)
+    // blocking whole-message recv on the accepted connection (unit U3): logs which descriptor was read and what came back
     #[verifier::external_body]
-    pub fn recv(&self) -> (r: Result<(Vec<u8>, Vec<OsOpaqueIpcChannel>, Vec<OsIpcSharedMemory>), UnixError>) { unimplemented!() }
+    pub fn recv(&self, Tracked(l): Tracked<&mut L>) -> (r: Result<(Vec<u8>, Vec<OsOpaqueIpcChannel>, Vec<OsIpcSharedMemory>), UnixError>)
+        ensures
+            final(l).open == old(l).open, final(l).owned == old(l).owned,
+            final(l).bound == old(l).bound, final(l).listening == old(l).listening, final(l).conn_of == old(l).conn_of,
+            final(l).lingering == old(l).lingering, final(l).connected == old(l).connected,
+            final(l).reads == old(l).reads.push(cell_val(&self.fd)),
+            r matches Ok(t) ==> final(l).got == Some((cell_val(&self.fd), t.0@, t.1@, t.2@)),
+            r is Err ==> final(l).got == old(l).got,
+    { unimplemented!() }
+}
+impl OsIpcSender {
+    // OsIpcSender { fd: Arc::new(SharedFileDescriptor(fd)) }: from here on the last clone's Drop closes the descriptor
+    #[verifier::external_body]
+    pub fn from_fd(fd: c_int, Tracked(l): Tracked<&mut L>) -> (r: OsIpcSender)
+        ensures r.fd == fd, final(l).open == old(l).open, final(l).owned == old(l).owned.insert(fd), same_rendezvous(*old(l), *final(l))
+    { unimplemented!() }
 }
 // setsockopt(SO_LINGER): may fail
 #[verifier::external_body]
-pub fn make_socket_lingering(sockfd: c_int) -> (r: Result<(), UnixError>) { unimplemented!() }
+pub fn make_socket_lingering(sockfd: c_int, Tracked(l): Tracked<&mut L>) -> (r: Result<(), UnixError>)
+    ensures
+        final(l).open == old(l).open, final(l).owned == old(l).owned,
+        final(l).bound == old(l).bound, final(l).listening == old(l).listening, final(l).conn_of == old(l).conn_of,
+        final(l).connected == old(l).connected, final(l).reads == old(l).reads, final(l).got == old(l).got,
+        r is Ok ==> final(l).lingering == old(l).lingering.insert(sockfd), r is Err ==> final(l).lingering == old(l).lingering,
+{ unimplemented!() }
 
 // libc::accept4(fd, NULL, NULL, flags)
 #[verifier::external_body]
 pub fn k_accept4(fd: c_int, flags: c_int, Tracked(l): Tracked<&mut L>) -> (r: c_int)
     requires flags & libc::SOCK_CLOEXEC != 0, //@@clause:unix.accept/requires.accepted_descriptor_is_close_on_exec
-    ensures r >= 0 ==> !old(l).open.contains(r) && final(l).open == old(l).open.insert(r) && final(l).owned == old(l).owned,
+             old(l).listening.contains(fd), //@@clause:unix.accept/requires.accepts_on_a_listening_socket
+    ensures r >= 0 ==> !old(l).open.contains(r) && final(l).open == old(l).open.insert(r) && final(l).owned == old(l).owned
+                && final(l).conn_of == old(l).conn_of.insert(r, fd) && final(l).bound == old(l).bound && final(l).listening == old(l).listening
+                && final(l).lingering == old(l).lingering && final(l).connected == old(l).connected && final(l).reads == old(l).reads && final(l).got == old(l).got,
             r < 0 ==> *final(l) == *old(l)
 { unimplemented!() }
 // libc::socket(AF_UNIX, ty, 0)
 #[verifier::external_body]
 pub fn k_socket(domain: c_int, ty: c_int, protocol: c_int, Tracked(l): Tracked<&mut L>) -> (r: c_int)
     requires ty & libc::SOCK_CLOEXEC != 0, //@@clause:unix.server_new/requires.socket_is_close_on_exec
-    ensures r >= 0 ==> !old(l).open.contains(r) && final(l).open == old(l).open.insert(r) && final(l).owned == old(l).owned,
+    ensures r >= 0 ==> !old(l).open.contains(r) && final(l).open == old(l).open.insert(r) && final(l).owned == old(l).owned && same_rendezvous(*old(l), *final(l))
+                && !old(l).bound.contains_key(r) && !old(l).listening.contains(r) && !old(l).connected.contains_key(r),
             r < 0 ==> *final(l) == *old(l)
 { unimplemented!() }
 #[verifier::external_body]
 pub fn k_close(fd: c_int, Tracked(l): Tracked<&mut L>) -> (r: c_int)
     requires old(l).open.contains(fd) && !old(l).owned.contains(fd), //@@clause:unix.server/requires.close_only_raw_open_descriptors
-    ensures final(l).open == old(l).open.remove(fd), final(l).owned == old(l).owned
+    ensures final(l).open == old(l).open.remove(fd), final(l).owned == old(l).owned,
+            final(l).bound == old(l).bound.remove(fd), final(l).listening == old(l).listening.remove(fd), final(l).connected == old(l).connected.remove(fd),
+            final(l).conn_of == old(l).conn_of, final(l).lingering == old(l).lingering, final(l).reads == old(l).reads, final(l).got == old(l).got,
 { unimplemented!() }
+// libc::bind(fd, &sockaddr, len): may fail; on success the socket is bound to the path in sun_path
 #[verifier::external_body]
-pub fn k_bind(fd: c_int) -> (r: c_int) { unimplemented!() }
+pub fn k_bind(fd: c_int, addr: &sockaddr_un, len: usize, Tracked(l): Tracked<&mut L>) -> (r: c_int)
+    ensures final(l).open == old(l).open, final(l).owned == old(l).owned,
+            final(l).listening == old(l).listening, final(l).conn_of == old(l).conn_of, final(l).lingering == old(l).lingering,
+            final(l).connected == old(l).connected, final(l).reads == old(l).reads, final(l).got == old(l).got,
+            r == 0 ==> final(l).bound == old(l).bound.insert(fd, addr.p), r != 0 ==> final(l).bound == old(l).bound,
+{ unimplemented!() }
+// libc::listen(fd, backlog): may fail
 #[verifier::external_body]
-pub fn k_listen(fd: c_int, backlog: c_int) -> (r: c_int) { unimplemented!() }
+pub fn k_listen(fd: c_int, backlog: c_int, Tracked(l): Tracked<&mut L>) -> (r: c_int)
+    requires backlog >= 1, //@@clause:unix.server_new/requires.listen_queue_holds_a_client_that_connects_before_accept
+             old(l).bound.contains_key(fd), //@@clause:unix.server_new/requires.listens_on_the_bound_socket
+    ensures final(l).open == old(l).open, final(l).owned == old(l).owned,
+            final(l).bound == old(l).bound, final(l).conn_of == old(l).conn_of, final(l).lingering == old(l).lingering,
+            final(l).connected == old(l).connected, final(l).reads == old(l).reads, final(l).got == old(l).got,
+            r == 0 ==> final(l).listening == old(l).listening.insert(fd), r != 0 ==> final(l).listening == old(l).listening,
+{ unimplemented!() }
+// libc::connect(fd, &sockaddr, len): may fail
+#[verifier::external_body]
+pub fn k_connect(fd: c_int, addr: &sockaddr_un, len: usize, Tracked(l): Tracked<&mut L>) -> (r: c_int)
+    ensures final(l).open == old(l).open, final(l).owned == old(l).owned,
+            final(l).bound == old(l).bound, final(l).listening == old(l).listening, final(l).conn_of == old(l).conn_of, final(l).lingering == old(l).lingering,
+            final(l).reads == old(l).reads, final(l).got == old(l).got,
+            r >= 0 ==> final(l).connected == old(l).connected.insert(fd, addr.p), r < 0 ==> final(l).connected == old(l).connected,
+{ unimplemented!() }
 
 // tempfile / path / CString plumbing of OsIpcOneShotServer::new: opaque values
-pub struct TempDir { pub _p: () }
-pub struct PathBuf { pub _p: () }
-pub struct CString { pub _p: () }
+pub struct TempDir { pub ghost id: int }      // tempfile::TempDir: a fresh directory, removed (with its contents) by its Drop
+pub struct PathBuf { pub ghost p: int }
+pub struct CString { pub ghost p: int }
 pub struct Builder { pub _p: () }
 impl Builder {
     #[verifier::external_body] pub fn new() -> Builder { unimplemented!() }
     // mkdtemp; the `?` converts io::Error into UnixError
     #[verifier::external_body] pub fn tempdir(&self) -> (r: Result<TempDir, UnixError>) { unimplemented!() }
 }
-impl TempDir { #[verifier::external_body] pub fn path(&self) -> (r: PathBuf) { unimplemented!() } }
+impl TempDir { #[verifier::external_body] pub fn path(&self) -> (r: PathBuf) ensures r.p == dir_path(self.id) { unimplemented!() } }
 impl PathBuf {
-    #[verifier::external_body] pub fn join(&self, s: &str) -> (r: PathBuf) { unimplemented!() }
-    #[verifier::external_body] pub fn to_str(&self) -> (r: Option<&str>) ensures r is Some { unimplemented!() }
+    #[verifier::external_body] pub fn join(&self, s: &str) -> (r: PathBuf) ensures parent(r.p) == self.p { unimplemented!() }
+    #[verifier::external_body] pub fn to_str(&self) -> (r: Option<&str>) ensures r matches Some(s) && str_path(s) == self.p { unimplemented!() }
 }
 impl CString {
-    #[verifier::external_body] pub fn new(s: &str) -> (r: Result<CString, ()>) ensures r is Ok { unimplemented!() }
-    #[verifier::external_body] pub fn as_ptr(&self) -> (r: usize) { unimplemented!() }
+    #[verifier::external_body] pub fn new(s: &str) -> (r: Result<CString, ()>) ensures r matches Ok(c) && c.p == str_path(s) { unimplemented!() }
+    #[verifier::external_body] pub fn from_string(s: String) -> (r: Result<CString, ()>) ensures r matches Ok(c) && c.p == string_path(s) { unimplemented!() }
+    #[verifier::external_body] pub fn as_ptr(&self) -> (r: usize) ensures ptr_path(r) == self.p { unimplemented!() }
 }
+// strncpy into sun_path (bounds: Kani harness ffi_new_sockaddr_un); paths longer than sun_path are not modelled
 #[verifier::external_body]
-pub fn new_sockaddr_un(path: usize) -> (r: (sockaddr_un, usize)) { unimplemented!() }
+pub fn new_sockaddr_un(path: usize) -> (r: (sockaddr_un, usize)) ensures r.0.p == ptr_path(path) { unimplemented!() }
 #[verifier::external_body]
-pub fn str_to_string(s: &str) -> (r: String) { unimplemented!() }
+pub fn str_to_string(s: &str) -> (r: String) ensures string_path(r) == str_path(s) { unimplemented!() }
 
 pub struct OsIpcOneShotServer { pub fd: c_int, pub _temp_dir: TempDir }
-// the struct literal: from here on OsIpcOneShotServer's Drop closes the descriptor
+pub struct OsIpcSender { pub fd: c_int }
+// the struct literal: from here on OsIpcOneShotServer's Drop closes the descriptor (and TempDir's Drop removes the directory)
 #[verifier::external_body]
 pub fn mk_server(fd: c_int, temp_dir: TempDir, Tracked(l): Tracked<&mut L>) -> (r: OsIpcOneShotServer)
-    ensures r.fd == fd, final(l).open == old(l).open, final(l).owned == old(l).owned.insert(fd)
+    ensures r.fd == fd, r._temp_dir == temp_dir, final(l).open == old(l).open, final(l).owned == old(l).owned.insert(fd), same_rendezvous(*old(l), *final(l))
 { unimplemented!() }
 
 pub proof fn lemma_cloexec_bit()
@@ -114,4 +184,13 @@ pub proof fn lemma_cloexec_bit()
 pub enum BlockingMode { Blocking, Nonblocking, Timeout(std::time::Duration) }
 // the free function unix::recv on a raw descriptor (unit U3)
 #[verifier::external_body]
-pub fn recv(fd: c_int, blocking_mode: BlockingMode) -> (r: Result<(Vec<u8>, Vec<OsOpaqueIpcChannel>, Vec<OsIpcSharedMemory>), UnixError>) { unimplemented!() }
+pub fn recv(fd: c_int, blocking_mode: BlockingMode, Tracked(l): Tracked<&mut L>) -> (r: Result<(Vec<u8>, Vec<OsOpaqueIpcChannel>, Vec<OsIpcSharedMemory>), UnixError>)
+    requires blocking_mode is Blocking, //@@clause:unix.accept/requires.first_message_awaited_blocking
+    ensures
+        final(l).open == old(l).open, final(l).owned == old(l).owned,
+        final(l).bound == old(l).bound, final(l).listening == old(l).listening, final(l).conn_of == old(l).conn_of,
+        final(l).lingering == old(l).lingering, final(l).connected == old(l).connected,
+        final(l).reads == old(l).reads.push(fd),
+        r matches Ok(t) ==> final(l).got == Some((fd, t.0@, t.1@, t.2@)),
+        r is Err ==> final(l).got == old(l).got,
+{ unimplemented!() }
